@@ -2,9 +2,9 @@
 (* Validate for C01: recorded runs of the real client <-> listener pair (harness `vh e2e`).  The
    same statements as E2E.tla, on the recorded order of events: what the receiving application
    has is at every moment a prefix of what was submitted (C01_Order / C01_Once / C01_NotBeforeSent),
-   byte for byte (C01_Intact); at the end it has everything (C01_Delivers) and every send has
+   byte for byte (C01_Intact), per link, and never a message of another link (C01_Routing); at the end it has everything (C01_Delivers) and every send has
    reported the receiver's outcome (C01_Outcome).  Monitor style. *)
-EXTENDS Naturals, Sequences, TLC, Json, IOUtils
+EXTENDS Naturals, Sequences, FiniteSets, TLC, Json, IOUtils
 Rec == ndJsonDeserialize(IOEnv.TRACE)
 VARIABLES l, s, nfail
 tvars == <<l, s, nfail>>
@@ -12,23 +12,29 @@ Fl(name, line, detail) == IF PrintT(<<"FAIL", name, line, detail>>) THEN 1 ELSE 
 Chk(name, cond, line, detail) == IF cond THEN 0 ELSE Fl(name, line, detail)
 Stat(name) == IF PrintT(<<"STAT", name>>) THEN 0 ELSE 0
 R(st1, f) == [s |-> st1, f |-> f]
-S0 == [n |-> 0, sub |-> <<>>, got |-> <<>>, rets |-> {}, broken |-> FALSE]
+S0 == [n |-> 0, links |-> 1, sub |-> <<>>, got |-> <<>>, rets |-> {}, broken |-> FALSE]
+\* per link: what was submitted / received on link ln, in order (rows carry the link index; message ids are 1000 * ln + k)
+Of(q, ln) == SelectSeq(q, LAMBDA x : x.ln = ln)
 Step(z, r, ln) ==
-  CASE r.ev = "Init" -> R([S0 EXCEPT !.n = r.n], 0)
-    [] r.ev = "Submit" -> R([z EXCEPT !.sub = Append(@, r.m)], 0)
+  CASE r.ev = "Init" -> R([S0 EXCEPT !.n = r.n, !.links = r.links], 0)
+    [] r.ev = "Submit" -> R([z EXCEPT !.sub = Append(@, [ln |-> r.ln, m |-> r.m])], 0)
     [] r.ev = "Recv" ->
-         R([z EXCEPT !.got = Append(@, r.m)],
-             Chk("C01_Once", ~\E i \in DOMAIN z.got : z.got[i] = r.m, ln, "duplicate")
-           + Chk("C01_NotBeforeSent", \E i \in DOMAIN z.sub : z.sub[i] = r.m, ln, "")
-           + Chk("C01_Order", (Len(z.got) < Len(z.sub) /\ z.sub[Len(z.got) + 1] = r.m) \/ (\E i \in DOMAIN z.got : z.got[i] = r.m), ln, "")
-           + Chk("C01_Intact", r.intact, ln, ""))
+         LET sub == Of(z.sub, r.ln) got == Of(z.got, r.ln)
+             dup == \E i \in DOMAIN z.got : z.got[i].m = r.m IN
+         R([z EXCEPT !.got = Append(@, [ln |-> r.ln, m |-> r.m])],
+             Chk("C01_Once", ~dup, ln, "duplicate")
+           \* a message submitted on another link must not come out of this one
+           + Chk("C01_Routing", r.m \div 1000 = r.ln, ln, "")
+           + Chk("C01_NotBeforeSent", \E i \in DOMAIN z.sub : z.sub[i].m = r.m, ln, "")
+           + Chk("C01_Order", dup \/ r.m \div 1000 # r.ln \/ (Len(got) < Len(sub) /\ sub[Len(got) + 1].m = r.m), ln, "")
+           + Chk("C01_Intact", r.intact \/ r.m \div 1000 # r.ln, ln, ""))
     [] r.ev = "SendRet" -> R([z EXCEPT !.rets = @ \cup {r.m}], Chk("C01_Outcome", r.ok /\ r.outcome = "accepted", ln, IF r.ok THEN r.outcome ELSE "error") + Chk("C01_Outcome", r.m \notin z.rets, ln, "twice"))
     [] r.ev \in {"RecvErr", "SetupErr"} -> R([z EXCEPT !.broken = TRUE], Fl("C01_Delivers", ln, r.ev))
     [] r.ev = "End" -> R(z, Chk("C01_Delivers", z.broken \/ ~r.timeout, ln, "stalled")
-                          + Chk("C01_Delivers", z.broken \/ r.timeout \/ Len(z.got) = z.n, ln, "lost")
-                          + Chk("C01_Outcome", z.broken \/ r.timeout \/ \A m \in 1..z.n : m \in z.rets, ln, "missing")
+                          + Chk("C01_Delivers", z.broken \/ r.timeout \/ Len(z.got) = z.n * z.links, ln, "lost")
+                          + Chk("C01_Outcome", z.broken \/ r.timeout \/ Cardinality(z.rets) = z.n * z.links, ln, "missing")
                           + Chk("C01_NoPanic", r.panics = 0, ln, "")
-                          + (IF Len(z.got) = z.n /\ z.n > 0 THEN Stat("delivered") ELSE 0))
+                          + (IF Len(z.got) = z.n * z.links /\ z.n > 0 THEN Stat("delivered") ELSE 0))
     [] OTHER -> R(z, 0)
 TInit == l = 1 /\ s = S0 /\ nfail = 0
 TNext == /\ l <= Len(Rec) /\ l' = l + 1
